@@ -62,44 +62,63 @@ Proof.
     destruct (str_eqb k key); auto; destruct (str_eqb k k_in_features); auto.
 Qed.
 
+Lemma existsb_false_in : forall (a : str) l d, existsb (str_eqb a) l = false -> In d l -> str_eqb a d = false.
+Proof.
+  intros a l d H I. destruct (str_eqb a d) eqn:E; auto.
+  assert (X : existsb (str_eqb a) l = true) by (apply existsb_exists; eauto). congruence.
+Qed.
+
+Lemma mapped_key_key : forall gs g, In g gs -> mapped_key gs (g_key g) = true.
+Proof.
+  intros gs g I. unfold mapped_key. apply orb_true_iff; right. apply existsb_exists. exists g; split; auto.
+  rewrite str_eqb_refl. reflexivity.
+Qed.
+Lemma mapped_key_default : forall gs g d, In g gs -> In d (g_defaults g) -> mapped_key gs d = true.
+Proof.
+  intros gs g d I J. unfold mapped_key. apply orb_true_iff; right. apply existsb_exists. exists g; split; auto.
+  apply orb_true_iff; right. apply existsb_exists. exists d; split; auto. apply str_eqb_refl.
+Qed.
+
+Lemma check_defaults_all_none : forall ks gr cx, (forall d, In d ks -> options_get d gr cx = PNone) ->
+  check_defaults ks gr cx = Ok true.
+Proof.
+  induction ks as [|k ks IH]; intros gr cx H; cbn [check_defaults]; auto.
+  rewrite (H k (or_introl eq_refl)). cbn [check_default]. apply IH. intros d I. apply H. right; exact I.
+Qed.
+
 Section Level.
-  Variables (gs : list grp) (in_group : bool) (name key op : str) (v inner : pv) (i : nat).
+  Variables (gs : list grp) (gr cx : list (str * pv)) (name key op : str) (v inner : pv) (i : nat).
   Hypothesis U : universe_ok gs = true.
   Hypothesis Li : i < List.length gs.
   Hypothesis Hkey : key = g_key (grp_at gs i).
   Hypothesis Hname : has_dunder name = false.
   Hypothesis Hop : op_ok_cfg gs (i, op) = true.
   Hypothesis Hv : good_spelling v inner.
+  Hypothesis Hlo : level_options gs gr cx key op v.
 
-  Let gr := if in_group then two key op v else [].
-  Let cx := if in_group then [] else two key op v.
-
-  Lemma og : forall k, options_get k gr cx = if str_eqb k key then PStr op else if str_eqb k k_in_features then v else PNone.
-  Proof. intros k. pose proof (options_get_two in_group key op v k) as H. unfold gr, cx. destruct in_group; exact H. Qed.
-
-  Lemma check_defaults_none : forall ks, existsb (str_eqb key) ks = false -> existsb (str_eqb k_in_features) ks = false ->
-    check_defaults ks gr cx = Ok true.
+  Lemma level_defaults : forall g, In g gs -> existsb (str_eqb key) (g_defaults g) = false ->
+    existsb (str_eqb k_in_features) (g_defaults g) = false -> check_defaults (g_defaults g) gr cx = Ok true.
   Proof.
-    induction ks as [|k ks IH]; intros A B; cbn [check_defaults]; auto.
-    cbn [existsb] in A, B. apply orb_false_iff in A as [A1 A2]. apply orb_false_iff in B as [B1 B2].
-    rewrite og. rewrite (str_eqb_sym k key), A1, (str_eqb_sym k k_in_features), B1. cbn [check_default]. apply IH; auto.
+    intros g I A B. destruct Hlo as (_ & _ & H3). apply check_defaults_all_none. intros d J.
+    apply H3; [eapply mapped_key_default; eauto | |]; rewrite str_eqb_sym; eapply existsb_false_in; eauto.
   Qed.
 
   Lemma level_claims : claims gs 0 name gr cx = Ok [i].
   Proof.
     pose proof U as U'. unfold universe_ok in U'. apply andb_true_iff in U' as [Ug Up].
     pose proof (grp_at_nth_error gs i Li) as Ni.
+    destruct Hlo as (H1 & H2 & H3).
     rewrite (claims_spec gs (onehot (List.length gs) i)); [rewrite idx_true_onehot; auto|].
     apply Forall2_onehot. intros j g Nj. unfold match_criteria.
     rewrite (parse_no_separator _ _ Hname).
+    pose proof (nth_error_In _ _ Nj) as Ig.
     destruct (group_ok_parts _ (forallb_nth_error _ _ _ _ Ug Nj)) as (_ & _ & _ & Kin & Kd & _ & Kdi).
     destruct Hv as [_ Hc].
     unfold op_ok_cfg in Hop; cbn [fst snd] in Hop. apply andb_true_iff in Hop as [_ Hvoc].
     destruct (Nat.eqb j i) eqn:E.
     - apply Nat.eqb_eq in E; subst j. rewrite Ni in Nj. injection Nj as <-.
-      unfold validate_options. rewrite <- Hkey in *. rewrite !og. rewrite str_eqb_refl.
-      rewrite (str_eqb_sym k_in_features key), Kin, str_eqb_refl.
-      rewrite Hc. rewrite check_defaults_none; [| exact Kd | exact Kdi].
+      unfold validate_options. rewrite <- Hkey in *. rewrite H1, H2, Hc.
+      rewrite (level_defaults _ Ig Kd Kdi).
       unfold check_required, process_found. cbn [hashable map elem_name forallb in_vocab dedup existsb List.length].
       destruct (g_strict (grp_at gs i)) eqn:S; cbn [andb]; [|reflexivity].
       cbn [orb negb] in Hvoc. rewrite Hvoc. reflexivity.
@@ -107,33 +126,61 @@ Section Level.
       pose proof (pairwise_nth _ _ _ _ _ _ Up E Nj Ni) as A1.
       pose proof (pairwise_nth _ _ _ _ _ _ Up (not_eq_sym E) Ni Nj) as A2.
       unfold groups_apart in A1, A2. repeat (apply andb_true_iff in A1 as [A1 ?]). repeat (apply andb_true_iff in A2 as [A2 ?]).
-      apply negb_true_iff in H, H0, H1, H2.
-      destruct (group_ok_parts _ (forallb_nth_error _ _ _ _ Ug Ni)) as (_ & _ & _ & Kini & _).
-      unfold validate_options. rewrite !og. rewrite Hkey, H0, Kin, str_eqb_refl.
-      rewrite (str_eqb_sym k_in_features), Kini. rewrite Hc.
-      rewrite check_defaults_none; [| rewrite Hkey; exact H1 | exact Kdi].
-      reflexivity.
+      apply negb_true_iff in H, H0, H4, H5.
+      unfold validate_options.
+      rewrite (H3 (g_key g) (mapped_key_key gs g Ig)); [| rewrite Hkey; exact H0 | exact Kin].
+      rewrite H2, Hc. rewrite (level_defaults _ Ig); [reflexivity | rewrite Hkey; exact H4 | exact Kdi].
   Qed.
 
-  Lemma resolve_step_level :
-    resolve_step gs (if in_group then PFeat (PStr name) (two key op v) [] else PFeat (PStr name) [] (two key op v))
-    = SOne i (PStr op) [inner].
+  Lemma resolve_step_level : resolve_step gs (PFeat (PStr name) gr cx) = SOne i (PStr op) [inner].
   Proof.
     pose proof U as U'. unfold universe_ok in U'. apply andb_true_iff in U' as [Ug Up].
     pose proof (grp_at_nth_error gs i Li) as Ni.
     destruct (group_ok_parts _ (forallb_nth_error _ _ _ _ Ug Ni)) as (_ & _ & _ & Kin & _ & C1 & _).
-    assert (R : resolve_step gs (PFeat (PStr name) gr cx) = SOne i (PStr op) [inner]).
-    { unfold resolve_step. rewrite level_claims, Ni.
-      unfold input_features, extract_op. rewrite (parse_no_separator _ _ Hname).
-      rewrite !og. rewrite <- Hkey, str_eqb_refl. rewrite Hkey, (str_eqb_sym k_in_features), Kin, str_eqb_refl.
-      destruct Hv as [Hg _]. rewrite Hg. cbn [List.length]. rewrite C1. rewrite Hname.
-      unfold op_ok_cfg in Hop; cbn [fst snd] in Hop. apply andb_true_iff in Hop as [_ Hvoc].
-      destruct (g_name_strict (grp_at gs i)) eqn:S.
-      - rewrite orb_true_r in Hvoc. cbn [negb orb] in Hvoc. cbn [hashable negb in_vocab]. rewrite Hvoc. reflexivity.
-      - reflexivity. }
-    unfold gr, cx in R. destruct in_group; exact R.
+    destruct Hlo as (H1 & H2 & H3).
+    unfold resolve_step. rewrite level_claims, Ni.
+    unfold input_features, extract_op. rewrite (parse_no_separator _ _ Hname).
+    rewrite <- Hkey. rewrite H1, H2.
+    destruct Hv as [Hg _]. rewrite Hg. cbn [List.length]. rewrite C1. rewrite Hname.
+    unfold op_ok_cfg in Hop; cbn [fst snd] in Hop. apply andb_true_iff in Hop as [_ Hvoc].
+    destruct (g_name_strict (grp_at gs i)) eqn:S.
+    - rewrite orb_true_r in Hvoc. cbn [negb orb] in Hvoc. cbn [hashable negb in_vocab]. rewrite Hvoc. reflexivity.
+    - reflexivity.
   Qed.
 End Level.
+
+(* the two-entry dictionaries of the option notation are level options *)
+Lemma level_options_two : forall gs (in_group : bool) key op v, str_eqb k_in_features key = false ->
+  level_options gs (if in_group then two key op v else []) (if in_group then [] else two key op v) key op v.
+Proof.
+  intros gs in_group key op v K.
+  assert (G : forall k, options_get k (if in_group then two key op v else []) (if in_group then [] else two key op v) =
+                        if str_eqb k key then PStr op else if str_eqb k k_in_features then v else PNone).
+  { intros k. pose proof (options_get_two in_group key op v k) as H. destruct in_group; exact H. }
+  repeat split.
+  - rewrite G, str_eqb_refl. reflexivity.
+  - rewrite G, K, str_eqb_refl. reflexivity.
+  - intros k _ A B. rewrite G, A, B. reflexivity.
+Qed.
+
+(* any description resolves to the chain it describes *)
+Lemma describes_resolves_l : forall gs rops src f, universe_ok gs = true -> has_dunder src = false ->
+  forallb (op_ok_cfg gs) rops = true -> describes gs rops src f ->
+  resolve_chain gs (S (List.length rops)) f = walk_of rops src.
+Proof.
+  intros gs rops src f U Hsrc Hops D. induction D as [i op name gr cx v src Hn Hlo Hv | i op name gr cx v n' g' c' rops src Hn Hlo Hv Nr D IH].
+  - cbn [forallb] in Hops. apply andb_true_iff in Hops as [Ho _].
+    pose proof Ho as Ho'. unfold op_ok_cfg in Ho'. cbn [fst snd] in Ho'. apply andb_true_iff in Ho' as [Li _]. apply Nat.ltb_lt in Li.
+    rewrite resolve_chain_S.
+    rewrite (resolve_step_level gs gr cx name (g_key (grp_at gs i)) op v (feat src) i U Li eq_refl Hn Ho Hv Hlo).
+    cbn [List.length resolve_chain]. rewrite (resolve_step_atom gs src Hsrc). reflexivity.
+  - cbn [forallb] in Hops. apply andb_true_iff in Hops as [Ho Hops].
+    pose proof Ho as Ho'. unfold op_ok_cfg in Ho'. cbn [fst snd] in Ho'. apply andb_true_iff in Ho' as [Li _]. apply Nat.ltb_lt in Li.
+    rewrite resolve_chain_S.
+    rewrite (resolve_step_level gs gr cx name (g_key (grp_at gs i)) op v (PFeat n' g' c') i U Li eq_refl Hn Ho Hv Hlo).
+    change (List.length ((i, op) :: rops)) with (S (List.length rops)).
+    rewrite (IH Hsrc Hops). reflexivity.
+Qed.
 
 (* ---------------------------------------------------------------------------------------------------------- *)
 (* the whole option-configured chain                                                                           *)
@@ -141,28 +188,37 @@ Lemma opt_chain_is_feat : forall gs ph in_group wrap v0 x rops, exists n g c,
   opt_chain gs ph in_group wrap v0 (x :: rops) = PFeat n g c.
 Proof. intros gs ph [] wrap v0 [i op] rops; cbn [opt_chain]; unfold opt_feature; eauto. Qed.
 
+Lemma opt_chain_describes : forall gs ph in_group wrap v0 src rops,
+  forallb group_ok gs = true -> (forall n, has_dunder (ph n) = false) -> good_wrap wrap ->
+  good_spelling v0 (feat src) -> forallb (op_ok_cfg gs) rops = true -> rops <> [] ->
+  describes gs rops src (opt_chain gs ph in_group wrap v0 rops).
+Proof.
+  intros gs ph in_group wrap v0 src rops Ug Hph Hw Hv0. induction rops as [|[i op] rops IH]; intros Hops N; [congruence|].
+  cbn [forallb] in Hops. apply andb_true_iff in Hops as [Ho Hops].
+  pose proof Ho as Ho'. unfold op_ok_cfg in Ho'. cbn [fst snd] in Ho'. apply andb_true_iff in Ho' as [Li _]. apply Nat.ltb_lt in Li.
+  destruct (group_ok_parts _ (forallb_nth_error _ _ _ _ Ug (grp_at_nth_error gs i Li))) as (_ & _ & _ & K & _).
+  rewrite str_eqb_sym in K.
+  cbn [opt_chain]. unfold opt_feature.
+  destruct rops as [|y rops'].
+  - pose proof (level_options_two gs in_group (g_key (grp_at gs i)) op v0 K) as L. unfold two in L.
+    destruct in_group; eapply D_last; eauto.
+  - destruct (opt_chain_is_feat gs ph in_group wrap v0 y rops') as (n & g & c & E).
+    pose proof (level_options_two gs in_group (g_key (grp_at gs i)) op (wrap (opt_chain gs ph in_group wrap v0 (y :: rops'))) K) as L.
+    unfold two in L. pose proof (IH Hops ltac:(discriminate)) as D.
+    pose proof (Hw n g c) as Gs. rewrite E in *.
+    destruct in_group;
+      (eapply (D_more gs i op _ _ _ (wrap (PFeat n g c)) n g c); [apply Hph | exact L | exact Gs | discriminate | exact D]).
+Qed.
+
 Lemma opt_chain_resolves_l : forall gs ph in_group wrap v0 src rops,
   universe_ok gs = true -> (forall n, has_dunder (ph n) = false) -> good_wrap wrap ->
   good_spelling v0 (feat src) -> has_dunder src = false ->
   forallb (op_ok_cfg gs) rops = true -> rops <> [] ->
   resolve_chain gs (S (List.length rops)) (opt_chain gs ph in_group wrap v0 rops) = walk_of rops src.
 Proof.
-  intros gs ph in_group wrap v0 src rops U Hph Hw Hv0 Hsrc. induction rops as [|[i op] rops IH]; intros Hops N; [congruence|].
-  cbn [forallb] in Hops. apply andb_true_iff in Hops as [Ho Hops].
-  pose proof Ho as Ho'. unfold op_ok_cfg in Ho'. cbn [fst snd] in Ho'. apply andb_true_iff in Ho' as [Li _]. apply Nat.ltb_lt in Li.
-  rewrite resolve_chain_S. cbn [opt_chain]. unfold opt_feature.
-  destruct rops as [|y rops'].
-  - pose proof (resolve_step_level gs in_group (ph 1) (g_key (grp_at gs i)) op v0 (feat src) i U Li eq_refl (Hph 1) Ho Hv0) as R.
-    unfold two in R. cbn [List.length]. destruct in_group; rewrite R; cbn [resolve_chain];
-      rewrite (resolve_step_atom gs src Hsrc); reflexivity.
-  - destruct (opt_chain_is_feat gs ph in_group wrap v0 y rops') as (n & g & c & E).
-    pose proof (resolve_step_level gs in_group (ph (List.length ((i, op) :: y :: rops'))) (g_key (grp_at gs i)) op
-                  (wrap (opt_chain gs ph in_group wrap v0 (y :: rops'))) (opt_chain gs ph in_group wrap v0 (y :: rops')) i
-                  U Li eq_refl (Hph _) Ho) as R.
-    rewrite E in R. specialize (R (Hw n g c)). rewrite <- E in R. unfold two in R.
-    pose proof (IH Hops ltac:(discriminate)) as IH'.
-    destruct in_group; rewrite R; change (List.length ((i, op) :: y :: rops')) with (S (List.length (y :: rops')));
-      rewrite IH'; reflexivity.
+  intros gs ph in_group wrap v0 src rops U Hph Hw Hv0 Hsrc Hops N.
+  pose proof U as U'. unfold universe_ok in U'. apply andb_true_iff in U' as [Ug _].
+  apply describes_resolves_l; auto. apply opt_chain_describes; auto.
 Qed.
 
 (* ---------------------------------------------------------------------------------------------------------- *)
